@@ -93,29 +93,35 @@ def run(ctx):
                 ctx.ob(R2, URL, f"{name} excludes {nm}", False, f"{nm} would pass through the encoder unescaped")
     enc = m.func(f"{URL}._encode_invalid_chars")
     appends = []
+    outs_ = set(astq.assigned_from(enc.node, lambda v: isinstance(v, ast.Call) and astq.call_text(v) == "bytearray"))
     for n in astq.walk_fn(enc.node):
-        if isinstance(n, ast.AugAssign) and astq.text(n.target) == "encoded_component":
+        if isinstance(n, ast.AugAssign) and astq.text(n.target) in outs_:
             appends.append(("raw", n))
-        if isinstance(n, ast.Call) and astq.call_text(n) in ("encoded_component.extend", "encoded_component.append"):
+        if isinstance(n, ast.Call) and isinstance(n.func, ast.Attribute) and n.func.attr in ("extend", "append") and astq.text(n.func.value) in outs_:
             appends.append(("ext", n))
     ctx.sites(R2, len(appends), 2, "writes to the encoder's output")
     for kind, n in appends:
         if kind == "raw":
             g = astq.enclosing(n, ast.If)
-            t = astq.text(g.test) if g is not None else ""
-            ok = g is not None and "in allowed_chars" in t and "byte_ord < 128" in t and astq.text(n.value) == "byte"
-            # the only other disjunct is a '%' of an already percent-encoded component
-            disj = [astq.text(v) for v in g.test.values] if g is not None and isinstance(g.test, ast.BoolOp) and isinstance(g.test.op, ast.Or) else []
-            ok = ok and len(disj) == 2 and any("is_percent_encoded and byte == b'%'" in d.replace('"', "'") for d in disj)
-            ctx.ob(R2, enc.qual, f"raw byte kept only if allowed ASCII or '%' of a fully percent-encoded component: `{t[:90]}`", ok, node=n)
+            t = astq.itext(enc.node, g.test).replace('"', "'") if g is not None else ""
+            val = astq.itext(enc.node, n.value)
+            disj = [astq.itext(enc.node, v).replace('"', "'") for v in g.test.values] if g is not None and isinstance(g.test, ast.BoolOp) and isinstance(g.test.op, ast.Or) else []
+            ok = len(disj) == 2 and any(d.endswith("== b'%'") and "count(b'%')" in d for d in disj) \
+                and any(d.startswith("ord(") and "< 128 and" in d and d.endswith(".decode() in allowed_chars") for d in disj)
+            # the byte kept is the byte tested
+            ok = ok and all(val in d for d in disj)
+            ctx.ob(R2, enc.qual, f"raw byte kept only if allowed ASCII or '%' of a fully percent-encoded component", ok, t[:160], node=n)
         else:
-            a = astq.text(n.args[0]).replace('"', "'")
-            ok = a.startswith("b'%' + ") and "hex(byte_ord)" in a and ".zfill(2)" in a
-            ctx.ob(R2, enc.qual, f"everything else is written as %XX: `{a[:70]}`", ok, node=n)
+            a = astq.itext(enc.node, n.args[0]).replace('"', "'")
+            ok = a.startswith("b'%' + ") and "hex(ord(" in a and ".zfill(2)" in a
+            ctx.ob(R2, enc.qual, f"everything else is written as %XX", ok, a[:100], node=n)
     et = m.func(f"{URL}._encode_target")
     txt = astq.text(et.node)
-    ok = "_encode_invalid_chars(path, _PATH_CHARS)" in txt and "_encode_invalid_chars(query, _QUERY_CHARS)" in txt
-    ctx.ob(R2, et.qual, "_encode_target encodes path and query with the path/query sets", ok)
+    encs = [c for c in astq.calls(et.node) if astq.call_text(c) == "_encode_invalid_chars" and len(c.args) == 2]
+    sets_used = sorted(astq.text(c.args[1]) for c in encs)
+    from_groups = all(any("groups()" in astq.text(x) for x in astq.sources_of(et.node, c.args[0])) for c in encs)
+    ok = sets_used == ["_PATH_CHARS", "_QUERY_CHARS"] and from_groups
+    ctx.ob(R2, et.qual, "_encode_target encodes path and query with the path/query sets", ok, f"{sets_used}")
     tr = fold.need(URL, "_TARGET_RE")
     gp = rx.groups(rx.parse(tr.pattern, tr.flags))
     ctx.ob(R2, URL, "_TARGET_RE drops the fragment (no capturing group after '#')", len(gp) == 2 and "(?:#.*)?" in tr.pattern, tr.pattern)
@@ -134,7 +140,9 @@ def run(ctx):
     ctx.ob(R3, rq.qual, f"output primitives used: {sorted(writers)}", ok, "" if ok else "the request writes bytes through something other than putrequest/putheader/endheaders/send", node=rq.node)
     ctx.sites(R3, len(writers.get("self.putheader", [])), 3, "putheader calls in request")
     hl = [c for c in writers.get("self.putheader", []) if astq.enclosing(c, ast.For) is not None]
-    ok = bool(hl) and astq.text(astq.enclosing(hl[0], ast.For).iter) == "headers.items()" and [astq.text(a) for a in hl[0].args] == ["header", "value"]
+    loop_ = astq.enclosing(hl[0], ast.For) if hl else None
+    ok = bool(hl) and astq.text(loop_.iter) == "headers.items()" and isinstance(loop_.target, ast.Tuple) \
+        and [astq.text(a) for a in hl[0].args] == [astq.text(e) for e in loop_.target.elts]
     ctx.ob(R3, rq.qual, "every caller header (name, value) goes through putheader", ok, node=rq.node)
     ph = m.method(HC, "putheader")
     deleg = [c for c in astq.calls(ph.node) if astq.call_text(c) == "super().putheader"]
@@ -174,16 +182,18 @@ def run(ctx):
     # ------------------------------------------------------------------ R5 automatic headers
     R5 = ctx.rule("C10-R5", "automatic headers: Host / Accept-Encoding are suppressed exactly when the caller supplied them (case-insensitively), User-Agent is added exactly when absent; only the three skippable headers accept the SKIP_HEADER sentinel", "E5 on request")
     txt = astq.text(rq.node)
-    ok = "header_keys = frozenset((to_str(k.lower()) for k in headers))" in txt
-    ctx.ob(R5, rq.qual, "caller header names are lower-cased for the presence tests", ok)
-    ok = "skip_accept_encoding = 'accept-encoding' in header_keys" in txt and "skip_host = 'host' in header_keys" in txt
-    ctx.ob(R5, rq.qual, "skip flags are presence of host / accept-encoding among the caller's headers", ok)
+    keyset = "frozenset((to_str(k.lower()) for k in headers))"
     prc = writers.get("self.putrequest", [])
-    ok = len(prc) == 1 and astq.text(astq.kwarg(prc[0], "skip_host")) == "skip_host" and astq.text(astq.kwarg(prc[0], "skip_accept_encoding")) == "skip_accept_encoding" \
-        and [astq.text(a) for a in prc[0].args] == ["method", "url"]
+    sh = astq.itext(rq.node, astq.kwarg(prc[0], "skip_host")) if prc and astq.kwarg(prc[0], "skip_host") is not None else ""
+    sa_ = astq.itext(rq.node, astq.kwarg(prc[0], "skip_accept_encoding")) if prc and astq.kwarg(prc[0], "skip_accept_encoding") is not None else ""
+    ok = keyset in sh and keyset in sa_
+    ctx.ob(R5, rq.qual, "caller header names are lower-cased for the presence tests", ok, sh[:120])
+    ok = sh == f"'host' in {keyset}" and sa_ == f"'accept-encoding' in {keyset}"
+    ctx.ob(R5, rq.qual, "skip flags are presence of host / accept-encoding among the caller's headers", ok, f"{sh} | {sa_}"[:200])
+    ok = len(prc) == 1 and [astq.text(a) for a in prc[0].args] == ["method", "url"]
     ctx.ob(R5, rq.qual, "putrequest(method, url, skip flags) - one request line", ok)
     ua = [c for c in writers.get("self.putheader", []) if c.args and isinstance(c.args[0], ast.Constant) and c.args[0].value == "User-Agent"]
-    ok = len(ua) == 1 and astq.enclosing(ua[0], ast.If) is not None and astq.text(astq.enclosing(ua[0], ast.If).test) == "'user-agent' not in header_keys"
+    ok = len(ua) == 1 and astq.enclosing(ua[0], ast.If) is not None and astq.itext(rq.node, astq.enclosing(ua[0], ast.If).test) == f"'user-agent' not in {keyset}"
     ctx.ob(R5, rq.qual, "default User-Agent iff the caller gave none", ok)
     sk = fold.need("urllib3.util.request", "SKIPPABLE_HEADERS")
     ctx.ob(R5, "urllib3.util.request", f"SKIPPABLE_HEADERS == accept-encoding, host, user-agent", set(sk) == {"accept-encoding", "host", "user-agent"}, str(sorted(sk)))
@@ -237,13 +247,16 @@ def run(ctx):
         ctx.sites(R6, len(apps), 1, "append to the HTTP/2 header list")
         checks = [n_ for n_ in astq.walk_fn(h2ph.node) if isinstance(n_, ast.If) and astq.all_paths_end_in(n_.body, lambda s: isinstance(s, ast.Raise))]
         tn = [n_ for n_ in checks if "_is_legal_header_name(header)" in astq.text(n_.test) and astq.text(n_.test).startswith("not ")]
-        tv = [n_ for n_ in checks if astq.text(n_.test) == "_is_illegal_header_value(value)"]
+        vloop = [n_ for n_ in astq.walk_fn(h2ph.node) if isinstance(n_, ast.For) and astq.text(n_.iter) == "values"]
+        # the value that is checked and appended is the loop variable (possibly re-bound to its encoded form)
+        vname = astq.text(vloop[0].target) if vloop else "value"
+        tv = [n_ for n_ in checks if astq.text(n_.test) == f"_is_illegal_header_value({vname})"]
         for a in apps:
             okn = bool(tn) and tn[0].lineno < a.lineno
             okv = bool(tv) and tv[0].lineno < a.lineno and astq.enclosing(tv[0], ast.For) is astq.enclosing(a, ast.For)
             ctx.ob(R6, h2ph.qual, "name check raises before the append", okn, node=a)
             ctx.ob(R6, h2ph.qual, "value check raises before the append, for each value", okv, node=a)
-            ok = [astq.text(x) for x in a.args[0].elts] == ["header", "value"] if isinstance(a.args[0], ast.Tuple) else False
+            ok = [astq.text(x) for x in a.args[0].elts] == ["header", vname] if isinstance(a.args[0], ast.Tuple) else False
             ctx.ob(R6, h2ph.qual, "what is appended is what was checked", ok, node=a)
         # the lower-casing happens before the name check (so the check sees what is sent)
         low = [n_ for n_ in astq.walk_fn(h2ph.node) if isinstance(n_, ast.Assign) and astq.text(n_.value) == "header.lower()"]
